@@ -12,7 +12,7 @@ PROPS["C16"] = {
                    "result equals the property's label function / whitespace-normalised text (C16/text_spec.h), bytes >= 0x80 are the same sequence in and out, and "
                    "header_clean_trailing_whitespace cuts only ASCII whitespace off heading tokens.  The three formulations of validity used (table-3-7 decoder, automaton, "
                    "local segment form) and /repo's utf8_check are proved to agree on all strings of <= 6 bytes.",
-    "slice": "char.c: char_is_* (12 functions), utf8_check; writer.c: label_from_string, clean_string, trim_trailing_whitespace_d_string, header_clean_trailing_whitespace (+ token.c token_trim_trailing_whitespace under it)",
+    "slice": "char.c: char_is_* (12 functions), utf8_check; writer.c: label_from_string, clean_string, trim_trailing_whitespace_d_string, header_clean_trailing_whitespace (+ token.c token_trim_trailing_whitespace under it); label_from_header (label handed back untouched: no cut at a byte offset); standalone superscript/subscript arm (marker ends at an ASCII byte)",
     "not_reached": "the re2c lexer's own byte classes (WS=[ \\t\\240] in lexer.re / meta_key in scanners.re: generated code, out of CBMC's reach -- the one place the property text itself worries about); "
                    "writers end to end; token_trim_* (trim_leading / trim_trailing / trim_both, shared with C15: only space, TAB, line endings and NUL are ever trimmed -- no byte of a multi-byte character -- for sources of any length); the five per-character escapers (esc_char_*: shared with C04/C08, full byte domain x flags, including the obfuscating path of mmd_print_char_html) carry the C16 obligation 'a byte >= 0x80 is passed through unchanged'.  Whole-string valid => valid for UNBOUNDED length is the "
                    "induction over the per-segment facts of the proof units; it is not machine-checked (it needs the quantified hypothesis 'every character of the source is well-formed', "
